@@ -139,7 +139,7 @@ class Prov:
                 if e[1] and e[1][0] == ("f", p[1]):
                     rest = e[1][1:]
                     return e[2] if not rest else ("partial", rest, e[2])
-                return ("unknown", "partial-other-field")
+                return ("nothing",)
             if self.is_closure_like and e == ("param", 1, "env"):
                 return ("upvar", name[6:] if name.startswith("_ref__") else name)
             return ("field", e, name)
@@ -242,6 +242,7 @@ class Prov:
 
 def mkphi(alts):
     flat = []
+    alts = [a for a in alts if a != ("nothing",)] or [("unknown", "no-definition")]
     for a in alts:
         if a[0] == "phi":
             for x in a[1]:
@@ -911,3 +912,79 @@ def cmp_intervals(d_coeff, k, op):
         return (None, k)
     neg = {"<": ">=", "<=": ">", ">": "<=", ">=": "<"}[op]
     return iv(op), iv(neg)
+
+
+# ---------------------------------------------------------------------------------- boolean flag variables
+
+class FlagEngine:
+    """Path-sensitive treatment of local `bool` variables that are only ever assigned constants
+    (`let mut ok = true; ... ok = false; ... if !ok {..}`): their value is carried in the abstract
+    state and switches on them (directly, through a copy or a `Not`) are pruned accordingly."""
+
+    def __init__(self, body, prov):
+        self.body = body
+        self.prov = prov
+        self.flags = []
+        for l, decl in enumerate(body.locals):
+            if body.tys[decl["ty"]] != "bool" or l == 0 or l <= body.arg_count:
+                continue
+            defs = prov.defs.get(l, ())
+            if defs and all(k == "rv" and p.k == "use" and p.ops[0].const_int() in (0, 1) and lhs.is_local()
+                            for lhs, k, p, b, _ in defs) and decl.get("name"):
+                self.flags.append(l)
+        self.index = {l: i for i, l in enumerate(self.flags)}
+
+    def initial(self):
+        return tuple(None for _ in self.flags)
+
+    def apply_stmts(self, bidx, vals):
+        vals = list(vals)
+        for s in self.body.blocks[bidx].stmts:
+            if s.k == "a" and s.lhs.is_local() and s.lhs.local in self.index and s.rv.k == "use":
+                c = s.rv.ops[0].const_int()
+                if c in (0, 1):
+                    vals[self.index[s.lhs.local]] = bool(c)
+        return tuple(vals)
+
+    def switch_flag(self, bidx):
+        """if the block's switch tests a flag: (flag local, negated)"""
+        blk = self.body.blocks[bidx]
+        t = blk.term
+        if t.k != "switch" or t.discr.place is None or not t.discr.place.is_local():
+            return None
+        cur = t.discr.place.local
+        neg = False
+        for _ in range(4):
+            if cur in self.index:
+                return cur, neg
+            nxt = None
+            for s in reversed(blk.stmts):
+                if s.k == "a" and s.lhs.is_local() and s.lhs.local == cur:
+                    if s.rv.k == "use" and s.rv.ops[0].place is not None and s.rv.ops[0].place.is_local():
+                        nxt = s.rv.ops[0].place.local
+                    elif s.rv.k == "un" and s.rv.j["op"] == "Not" and s.rv.ops[0].place is not None and s.rv.ops[0].place.is_local():
+                        nxt = s.rv.ops[0].place.local
+                        neg = not neg
+                    break
+            if nxt is None:
+                return None
+            cur = nxt
+        return None
+
+    def successors(self, bidx, vals):
+        """successor blocks compatible with the flag values after the block's statements"""
+        t = self.body.blocks[bidx].term
+        sf = self.switch_flag(bidx)
+        if sf is None:
+            return list(t.succs())
+        l, neg = sf
+        v = vals[self.index[l]]
+        if v is None:
+            return list(t.succs())
+        tested = (not v) if neg else v
+        f = None
+        for val, b in t.vals:
+            if val == 0:
+                f = b
+        tr = t.otherwise
+        return [tr] if tested else ([f] if f is not None else [])
